@@ -1,13 +1,15 @@
 -------------------------------- MODULE Cqrs --------------------------------
 (* Dispatch rules of the CQRS processors (components/cqrs) -- property C15.
 
-   A registry is a sequence of handlers  [h |-> id, type |-> type name, fails |-> BOOLEAN].
+   A registry is a sequence of handlers  [h |-> id, type |-> type name, fails |-> BOOLEAN, grp |-> group number].
    A message is  [name |-> type name in its metadata ("" = none), wellformed |-> BOOLEAN].
    Processor kinds
      "command", "event" : every handler has its own subscription; `on` is the handler on
                           whose subscription the message arrived
-     "group"            : one subscription for the whole group; matching handlers are called
-                          in registration order, stopping at the first error
+     "group"            : one subscription per group (a processor may have several groups, each with its
+                          own handlers: what one group handles says nothing about another); `on` is the
+                          group on whose subscription the message arrived; its matching handlers are
+                          called in registration order, stopping at the first error
    Flags: ackUnknown (AckOnUnknownEvent), ackErrors (AckCommandHandlingErrors).
    Dispatch(...) = [calls |-> sequence of handler ids invoked, settle |-> "ack" | "nack"].
    A handler is invoked iff the message's type name equals the name of its type (and the payload
@@ -34,6 +36,6 @@ Group(reg, i, flags, msg, acc) ==
     ELSE Group(reg, i + 1, flags, msg, Append(acc, reg[i].h))
 
 Dispatch(kind, reg, flags, msg, on) ==
-    IF kind = "group" THEN Group(reg, 1, flags, msg, << >>)
+    IF kind = "group" THEN Group(SelectSeq(reg, LAMBDA x : x.grp = on), 1, flags, msg, << >>)
     ELSE Single(kind, reg[on], flags, msg)
 =============================================================================
